@@ -19,6 +19,20 @@ def hProcRanks (j : Json) : R Json := do
     Json.mkObj [("start", s), ("end", e), ("batches", ofNatListList bs)]
   return Json.mkObj [("pending", ofNatList pend), ("ranks", ofList ranks)]
 
+/-- `proc.run`: single-rank compute() on a status mask; results are reported as the list of
+    positions whose slot holds `f p` afterwards (slots start as `none`) -/
+def hProcRun (j : Json) : R Json := do
+  let status ← natList j "status"
+  let batch ← nat j "batch"
+  if h : 0 < batch then
+    let s : DS (Option Nat) := { results := status.map (fun _ => none), status := status }
+    let (fin, log) := computeRun (fun p => some p) s batch h
+    let computed := (List.range status.length).filter (fun p => fin.results[p]? == some (some p))
+    return Json.mkObj [("batches", ofNatListList (rankBatches (pending status) 1 0 batch h)),
+      ("calls", ofNatList log), ("status", ofNatList fin.status), ("computed", ofNatList computed)]
+  else
+    return Json.mkObj [("nontermination", true)]
+
 def hSocket (j : Json) : R Json := do
   let names ← strList j "names"
   return ofNatList (socketMasters names)
